@@ -1,7 +1,7 @@
 (* C07 - RDF terms obey identity laws: equality, hashing, ordering, pickling, n3 text.
    Property theorems only; proofs are in Term/Proofs.v.  The model (Term/Model.v) is tied to
    rdflib/term.py and rdflib/util.py by harness/c07.py. *)
-From RV Require Import Term.Model Term.Proofs Term.Text.
+From RV Require Import Term.Model Term.Proofs Term.Text Term.Sort Term.Order.
 Local Open Scope N_scope.
 
 (* == is an equivalence relation, and never holds between terms of different kinds *)
@@ -64,6 +64,62 @@ Theorem C07_sort_no_error : forall a b, modelled a = true -> modelled b = true -
 Proof. exact lt_defined. Qed.
 Print Assumptions C07_sort_no_error.
 
+(* < on the modelled terms - non-literals, plain / xsd:string / language-tagged literals, [+-]?[0-9]+ xsd:integers -
+   is the strict total order key_lt of a sort key (kind and string; integer value; lower-cased tag and lexical form)
+   read through the key function skey_of: a STRICT WEAK ORDER, whose ties are exactly the terms with the same key *)
+Theorem C07_lt_is_key_order : forall a b, modelled a = true -> modelled b = true ->
+  term_lt a b = Some (key_lt (skey_of a) (skey_of b)).
+Proof. exact term_lt_key. Qed.
+Print Assumptions C07_lt_is_key_order.
+
+Theorem C07_lt_strict_weak_order :
+  (forall a, tlt a a = false)
+  /\ (forall a b c, tlt a b = true -> tlt b c = true -> tlt a c = true)
+  /\ (forall a b c, tlt a b = false -> tlt b c = false -> tlt a c = false)
+  /\ (forall a b, tlt a b = false -> tlt b a = false -> skey_of a = skey_of b).
+Proof. exact tlt_strict_weak_order. Qed.
+Print Assumptions C07_lt_strict_weak_order.
+
+(* sorting with < only (list.sort and sorted() call nothing but __lt__).  For ANY irreflexive comparison, two lists
+   without inversion in which ties stand in the same order are equal: a correct stable comparison sort has exactly
+   one possible result.  That it is correct and stable is ALL that is assumed of CPython's sort. *)
+Theorem C07_stable_sort_unique : forall (A : Type) (lt : A -> A -> bool), (forall a, lt a a = false) ->
+  forall l1 l2, sorted A lt l1 -> sorted A lt l2 ->
+    (forall x, filter (tie A lt x) l1 = filter (tie A lt x) l2) -> l1 = l2.
+Proof. exact stable_sort_unique. Qed.
+Print Assumptions C07_stable_sort_unique.
+
+(* ... and on a strict weak order that result exists: the insertion sort of Term/Model.v returns a permutation,
+   without inversion, in which elements that tie keep their input order *)
+Theorem C07_isort_correct : forall (A : Type) (lt : A -> A -> bool),
+  (forall a, lt a a = false) ->
+  (forall a b c, lt a b = true -> lt b c = true -> lt a c = true) ->
+  (forall a b c, lt a b = false -> lt b c = false -> lt a c = false) ->
+  forall l, Permutation.Permutation (isort lt l) l /\ sorted A lt (isort lt l) /\ stable A lt l (isort lt l).
+Proof.
+  intros A lt H1 H2 H3 l. split; [apply isort_perm|]. split; [apply isort_sorted|apply isort_stable]; auto.
+Qed.
+Print Assumptions C07_isort_correct.
+
+Theorem C07_stable_sort_is_isort : forall (A : Type) (lt : A -> A -> bool),
+  (forall a, lt a a = false) ->
+  (forall a b c, lt a b = true -> lt b c = true -> lt a c = true) ->
+  (forall a b c, lt a b = false -> lt b c = false -> lt a c = false) ->
+  forall l l', sorted A lt l' -> stable A lt l l' -> l' = isort lt l.
+Proof. exact stable_sort_is_isort. Qed.
+Print Assumptions C07_stable_sort_is_isort.
+
+(* what the checker demands of the observed sorted() whenever the observed < is a strict weak order on the case *)
+Theorem C07_spec_ok_sorted_reads : forall c o, spec_ok c o = true ->
+  let n := length (c_terms c) in let f := mlt_of (o_lt o) in
+  swo_matrix n (o_lt o) = true ->
+  exists p, o_sorted o = Some (Some p)
+    /\ length p = n /\ (forall i, (i < n)%nat -> In i p)
+    /\ sorted nat f p
+    /\ (forall x, (x < n)%nat -> filter (tie nat f x) p = filter (tie nat f x) (seq 0 n)).
+Proof. exact sorted_ok_reads. Qed.
+Print Assumptions C07_spec_ok_sorted_reads.
+
 (* pickle / copy / deepcopy: every well-formed term comes back as itself (__reduce__ passes normalize=False since
    the repair of finding F7a) *)
 Theorem C07_pickle : forall o t, wf_term t = true -> same_as t (unpickle o t) = true.
@@ -71,8 +127,8 @@ Proof. exact pickle_same. Qed.
 Print Assumptions C07_pickle.
 
 (* the tie for the suite "laws": the checker evaluated on the implementation's answers accepts the model's *)
-Theorem C07_spec_ok_model : forall c, kf c = 0 -> spec_ok c (model_obs c) = true.
-Proof. exact spec_ok_model. Qed.
+Theorem C07_spec_ok_model : forall c, spec_ok c (model_obs c) = true.
+Proof. exact Order.spec_ok_model. Qed.
 Print Assumptions C07_spec_ok_model.
 
 (* what that checker means *)
@@ -94,6 +150,20 @@ Theorem C07_spec_ok_ne_reads : forall c o, spec_ok c o = true ->
 Proof. exact spec_ok_ne_reads. Qed.
 Print Assumptions C07_spec_ok_ne_reads.
 
+(* > , <= , >= are observed as matrices too (Identifier.__gt__/__le__/__ge__, Literal.__gt__/__le__/__ge__ are
+   modelled): whenever a term that is not a literal is involved, a > b is b < a, a <= b is a < b or a == b,
+   a >= b is b < a or a == b; > on two literals never raises (nothing is demanded of <= and >= on two literals:
+   Literal.eq raises TypeError by design when it cannot decide) *)
+Theorem C07_spec_ok_ops_reads : forall c o, spec_ok c o = true ->
+  let ts := c_terms c in
+  forall i j, (i < length ts)%nat -> (j < length ts)%nat ->
+    let a := nth i ts (IRI []) in let b := nth j ts (IRI []) in
+    op_entry_ok (lt_required b a) (nthd (o_gt o) i j None) = true
+    /\ op_entry_lax (option_map (fun v => v || key_same a b) (lt_required a b)) (nthd (o_le o) i j None) = true
+    /\ op_entry_lax (option_map (fun v => v || key_same a b) (lt_required b a)) (nthd (o_ge o) i j None) = true.
+Proof. exact spec_ok_ops_reads. Qed.
+Print Assumptions C07_spec_ok_ops_reads.
+
 (* inside one datatype family (same datatype IRI; plain and language-tagged literals together; no private empty tag) the observed <
    must be irreflexive, asymmetric and transitive - what sorted() needs to be reproducible *)
 Theorem C07_spec_ok_family_reads : forall c o, spec_ok c o = true ->
@@ -106,19 +176,6 @@ Theorem C07_spec_ok_family_reads : forall c o, spec_ok c o = true ->
     /\ (same_family (t j) (t k) = true -> lt i j -> lt j k -> lt i k).
 Proof. exact spec_ok_family_reads. Qed.
 Print Assumptions C07_spec_ok_family_reads.
-
-(* on the modelled literals (strings with tags not differing only in case, [+-]?[0-9]+ integers) < inside a
-   family IS a strict order: the lexicographic order on (tag, lexical form), resp. the order of the integers *)
-Theorem C07_family_order_model : forall a b, same_dt a b = true -> case_variant a b = false ->
-  is_lt (cmp_of (term_lt a b)) = mlt a b.
-Proof. exact fam_is_lt. Qed.
-Print Assumptions C07_family_order_model.
-
-Theorem C07_family_order_strict :
-  (forall a, mlt a a = false) /\ (forall a b, mlt a b && mlt b a = false)
-  /\ (forall a b c, mlt a b = true -> mlt b c = true -> mlt a c = true).
-Proof. exact (conj mlt_irrefl (conj mlt_asym mlt_trans)). Qed.
-Print Assumptions C07_family_order_strict.
 
 (* the tie for the suite "pickler": a sequence of well-formed terms through one NodePickler, each coming back as itself *)
 Theorem C07_pickler_spec_ok_model : forall ts, forallb wf_term ts = true -> pspec_ok ts (pmodel_obs ts) = true.
@@ -199,8 +256,8 @@ Print Assumptions C07_prefix_bs_quote_refuted.
 Example C07_nonvacuous :
   let c := {| c_terms := [BNd [97]; Var [97]; IRI [97]; Lit [97] None (Some [101; 110]); Lit [97] None (Some [102; 114]);
                           Lit [49] (Some xsd_integer) None];
-              c_hash := []; c_ill := [false; false; false; false; false; false] |} in
-  kf c = 0 /\ spec_ok c (model_obs c) = true
+              c_hash := [] |} in
+  spec_ok c (model_obs c) = true
   /\ nthd (o_lt (model_obs c)) 3 4 None = Some CLt
   /\ term_eqb (Lit [97] None (Some [101; 110])) (Lit [97] None (Some [69; 78])) = true
   /\ nthd (o_lt (model_obs c)) 0 1 None = Some CLt
